@@ -154,6 +154,28 @@ fn mesh1_num(t: &mut Toks, cx: &mut Ctx) -> String {
             if m2.nnodes() == nn { let tolp = 0.5 * 10f64.powi(-(prec as i32)) * 1.0000001;
                 cx.check((0..nn).all(|i| (m2.coord(i) - nodes[i]).abs() <= tolp + 1e-15 * nodes[i].abs()) && (0..nn).all(|i| (0..nvars).all(|q| (m2[i][q] - data[i * nvars + q]).abs() <= tolp + 1e-15 * data[i * nvars + q].abs())), "file round trip does not reproduce nodes/variables to the printed precision"); } }
         Err(c) => { out.push_str(&format!("!{}", c)); if nvars > 0 || nn > 0 { cx.fail(format!("output/read panicked ({})", c)); } } }
+    // the same file read into a LARGER receiver that already holds data (nn + 2 nodes, every value 7): the receiver must
+    // shrink to the file's nodes, hold the file's values, and reject the node numbers that no longer exist
+    let path3 = dir.join(format!("mesh3-{}-{}.dat", std::process::id(), nn * 1000 + nvars));
+    let ps3 = path3.to_str().unwrap().to_string();
+    let r3 = guarded(|| { m.output(&ps3, prec);
+        let mut m3 = Mesh1D::<f64, f64>::new(Vector::create((0..nn + 2).map(|i| i as f64).collect()), nvars);
+        for i in 0..nn + 2 { m3.set_nodes_vars(i, Vector::new(nvars, 7.0)); }
+        m3.read(&ps3); m3 });
+    let _ = std::fs::remove_file(&path3);
+    match r3 { Ok(mut m3) => { out.push_str(" | "); out.push_str(&dump1(&m3));
+            cx.check(m3.nnodes() == nn, "read into a larger mesh left a different number of nodes than the file holds");
+            if let Ok(m2) = &r { cx.check(dump1(&m3) == dump1(m2), "reading the same file into a larger, already filled mesh gives a different mesh"); }
+            for k in [nn, nn + 1] {
+                let g = guarded(|| m3.get_nodes_vars(k));
+                out.push_str(&match &g { Ok(v) => format!(" get{} {}", k - nn, wr_vector(v)), Err(c) => format!(" get{} !{}", k - nn, c) });
+                cx.check(g.is_err(), "get_nodes_vars returned a value for a node beyond the nodes read from the file");
+                let before = dump1(&m3);
+                let st = guarded(|| m3.set_nodes_vars(k, Vector::new(nvars, 1.0)));
+                out.push_str(&match &st { Ok(_) => format!(" set{} ok", k - nn), Err(c) => format!(" set{} !{}", k - nn, c) });
+                cx.check(st.is_err() && dump1(&m3) == before, "set_nodes_vars accepted (or wrote through) a node beyond the nodes read from the file");
+            } }
+        Err(c) => { out.push_str(&format!(" | !{}", c)); if nvars > 0 || nn > 0 { cx.fail(format!("output/read into a larger mesh panicked ({})", c)); } } }
     out
 }
 
